@@ -107,6 +107,17 @@ class Transcript:
         self.entries = {}
         self.patches = []
 
+    def add_sha(self, b):
+        import hashlib
+        self.entries[('sha256d', bytes(b))] = hashlib.sha256(hashlib.sha256(b).digest()).digest()
+
+    def add_block_ids(self, block):
+        """ids of a block and its transactions (the implementation caches them at decode time, possibly before the
+        transcript started)"""
+        self.add_sha(block.header.serialize())
+        for t in block.transactions:
+            self.add_sha(t.serialize())
+
     def table(self):
         return [(k[0], k[1], v) for k, v in self.entries.items()]
 
